@@ -182,6 +182,27 @@ def _named_wrap(fn: Any, named: str) -> Any:
             raise SimFault("sim: user callable raised after its body")
 
         return w2
+    if named in ("nested_convert", "nested_convert_raises"):
+        # a conversion started while another one is in flight (the user's callable, or a library it
+        # calls, exports a helper while being traced): the inner activation/unwind of the patch stack
+        # is interleaved with the outer one
+        from jax2onnx import to_onnx as _to_onnx
+
+        def w3(*a: Any, **k: Any) -> Any:
+            import jax.numpy as jnp
+
+            def inner(x):
+                if named == "nested_convert_raises":
+                    raise SimFault("sim: inner user callable raised")
+                return jnp.tanh(x) * 2.0
+
+            try:
+                _to_onnx(inner, [(2, 3)])
+            except SimFault:
+                pass
+            return fn(*a, **k)
+
+        return w3
     raise ValueError(named)
 
 
@@ -603,7 +624,7 @@ def gen_history(seed: int, run: int, registry: list[str], n_ops: int) -> list[di
             elif v < 0.30:
                 op["fault"] = {"region": [r.choice(FAULT_REGIONS), r.randrange(0, 40)], "exc": r.choice(["SimFault", "SimInterrupt"])}
             elif v < 0.36:
-                op["fault"] = {"named": r.choice(["user_raises_before", "user_raises_after"])}
+                op["fault"] = {"named": r.choice(["user_raises_before", "user_raises_after", "nested_convert", "nested_convert_raises"])}
             w_ = r.random()
             if w_ < 0.15:
                 op["over"] = {"enable_double_precision": True}
